@@ -138,7 +138,11 @@ func (c *Conn) doWrite(opcode Opcode, payload internal.Payload) error {
 	}
 	verifSched("w.write", c)
 	err = internal.WriteN(c.conn, frame.Bytes())
-	_, _ = payload.WriteTo(&c.cpsWindow)
+	// Only data messages belong to the compression context: the peer's LZ77 window
+	// never sees the payload of a control frame.
+	if opcode.isDataFrame() {
+		_, _ = payload.WriteTo(&c.cpsWindow)
+	}
 	binaryPool.Put(frame)
 	return err
 }
